@@ -25,6 +25,7 @@ Class RSpec (R : Region) := {
   valid : st R -> idx R -> Prop;            (* indices the guarantees apply to *)
   dom : st R -> val R -> Prop;              (* values covered by the round trip *)
   sim : st R -> st R -> Prop;               (* observational equivalence *)
+  mergeable : list (st R) -> Prop;          (* source lists [merge_regions] is specified for *)
 }.
 
 Definition frame (R : Region) (SP : RSpec R) (s s' : st R) : Prop :=
@@ -46,7 +47,7 @@ Class RegionOK (R : Region) (SP : RSpec R) : Prop := {
   (* C08 *)
   clear_ok : forall s, inv s -> inv (clear R s) /\ sim (clear R s) (dflt R);
   (* C10, first half: a merged region is well formed (freshness is [MergeFresh]) *)
-  merge_inv : forall l, Forall inv l -> inv (merge R l);
+  merge_inv : forall l, Forall inv l -> mergeable l -> inv (merge R l);
   sim_refl : forall s, sim s s;
   sim_sym : forall s t, sim s t -> sim t s;
   sim_trans : forall s t u, sim s t -> sim t u -> sim s u;
